@@ -28,6 +28,7 @@
 #include "cli-subroutines.h"
 
 #include "snoopy.h"
+#include "util/string-snoopy.h"
 
 #include <stdio.h>
 #include <stdlib.h>
@@ -66,6 +67,17 @@ int snoopy_cli_action_enable ()
 
     // Check if OUR Snoopy is already enabled
     if (etcLdSoPreload_findEntry(curEtcLdSoPreloadContent, libsnoopySoPath)) {
+        // "Already enabled" must mean what `snoopyctl status` and `disable` mean by it: only one active line mentions libsnoopy.so
+        const char * activeLinePtr = etcLdSoPreload_findNonCommentLineContainingString(curEtcLdSoPreloadContent, SNOOPY_SO_LIBRARY_NAME);
+        if (
+            (activeLinePtr != NULL)
+            &&
+            (etcLdSoPreload_findNonCommentLineContainingString(activeLinePtr + snoopy_util_string_getLineLength(activeLinePtr), SNOOPY_SO_LIBRARY_NAME) != NULL)
+        ) {
+            printDiagValue("ld.so.preload path", g_etcLdSoPreloadPath);
+            printDiagValue("Search string", SNOOPY_SO_LIBRARY_NAME);
+            fatalError("Snoopy is already enabled, but another Snoopy reference is active, too - clean up the ld.so.preload file first.");
+        }
         free(curEtcLdSoPreloadContent);
         printDiagValue("ld.so.preload path", g_etcLdSoPreloadPath);
         printDiagValue("Search string", libsnoopySoPath);
